@@ -31,6 +31,9 @@ class CachingStreamWrapper(io.IOBase):
 
     def peek(self, n):
         result = self.read(n)
+        if result is None:
+            # non-blocking raw stream has no data yet
+            return result
         self._cache.seek(-len(result), os.SEEK_CUR)
         return result
 
